@@ -24,7 +24,8 @@ EXPLANATION = (
     'reference count moves by ++/-- only and is taken/released together with a client\'s awaited bit, so '
     'one client\'s reply cannot free a service another client awaits; (ARITH.1) the producer of a '
     'slot index is bounded by the mask width.  Projection equality of outputs is not decided.'
-    ' Rounds 8-9: (MPT.6) no re-check of a request is reached after a call that can release a service slot; (TMR.2) per-request timers; (TAB.1) folded helpers\' walks are judged on their own.')
+    ' Rounds 8-9: (MPT.6) no re-check of a request is reached after a call that can release a service slot; (TMR.2) per-request timers; (TAB.1) folded helpers\' walks are judged on their own.'
+    " Hunt round 1: (WIRE.1) a module that counts references on services installs both retire hooks and a release is reachable from each; (WMC.4 ref-once) a reference is counted only where the client's awaited bit is clear; (GRD.4) an entry that is no longer configured answers the class lookup for nobody.")
 ASSUMPTIONS = ['clang 14 CFG and may-call graph with slot resolution', 'heap objects reached through a request pointer belong to that request']
 
 NAMED = {
